@@ -95,6 +95,11 @@ fn scen(_spec: RunSpec) -> ScenFut {
             c.ticks_ms = vec![100, 10_000, 150_000, 299_000, 301_000, 400_000];
             c.max_virtual_ns = 24 * 3600 * 1_000_000_000;
         });
+        // a fifth of the runs starve one node's requests (adversarial schedule: conflict-retry exhaustion)
+        if sim::w(5) == 4 {
+            sim::set_cfg(|c| c.starve_node = Some(0));
+            sim::probe("starved-node-schedule");
+        }
         sim::log(format!("CONFIG nodes={nodes} chunks={nchunks} profile={profile} post_gates={post} adv_pct={adv}"));
         let recs: Arc<Mutex<Vec<Rec>>> = Arc::new(Mutex::new(Vec::new()));
         // plans: (kind, a, b, pause_ms)
